@@ -469,7 +469,7 @@ def check_C16(tier, seed):
               {"driver": "trackdriver", "build": lambda wd, ms: _bs.build_foreign_obs(wd, ms, tier, seed), "module": "TraceTrackBlobs", "cfg": _bs.blob_cfg()},
               {"driver": "tabledriver", "build": lambda wd, ms: _tb.build_table16(wd, ms, tier, seed), "module": "TraceTableApi", "cfg": _tb.table_cfg()},
               {"driver": "pltabledriver", "build": build_pl, "module": "TraceV2Table", "cfg": pl_cfg},
-              {"driver": "auxdriver", "build": lambda wd, ms: _ax.build_aux(wd, ms, tier, seed), "module": "TraceChangeLog", "cfg": _ax.aux_cfg()}],
+              {"driver": "auxdriver", "build": lambda wd, ms: _ax.build_aux(wd, ms, tier, seed, nmax=250 if tier == "quick" else None, nrand=30 if tier == "quick" else None), "module": "TraceChangeLog", "cfg": _ax.aux_cfg()}],
         rule="tracks holding foreign blobs (2.x; entry counts other than eight, flag bytes, trailing bytes planted behind the library's "
              "back): all getters and snapshot() twice after every planted blob, same NoWrite rule and the planted payload must still be "
              "there (TraceTrackBlobs); table level (schema-2.x table API): the read functions of track_table (get, exists, all_ids, the 48 per-column getters), "
